@@ -272,7 +272,11 @@ fn gap_is_skips(ctx: &DefCtx, src: &[u8], from: usize, to: usize) -> bool {
 /// Compare the compiled lexer's stream with the reference stream (C01 / C02 / C13) and with the
 /// graph interpreter.
 pub fn check_stream(ctx: &DefCtx, src: &[u8], out: &RunOut, vs: &mut Vec<Violation>) -> Option<RefStream> {
-    if out.panicked.is_some() {
+    if let Some(p) = &out.panicked {
+        if ctx.def.has_callbacks() && !p.contains(logos::verif::BUDGET_PANIC) {
+            // callbacks only do what the table allows (in-range bumps): a panic is a C13 matter too
+            vs.push(v("C13", "panic-in-run-with-callbacks", format!("lexer or callback panicked: {}", p.chars().take(200).collect::<String>())));
+        }
         return None;
     }
     let rs = ref_stream(ctx, src, 0);
